@@ -478,6 +478,16 @@ struct Built {
     _rt: Option<tokio::runtime::Runtime>,
 }
 
+/// Disk-backed subjects live on tmpfs when available: the property is about interleavings, not about the
+/// device, and a slow fsync under machine load would look like a stalled task to the baton.
+fn scratch_dir() -> Result<tempfile::TempDir, String> {
+    if std::path::Path::new("/dev/shm").is_dir() {
+        tempfile::Builder::new().prefix("vh-c11-").tempdir_in("/dev/shm").map_err(|e| e.to_string())
+    } else {
+        tempfile::tempdir().map_err(|e| e.to_string())
+    }
+}
+
 fn build(kind: Kind) -> Result<Built, String> {
     match kind {
         Kind::Memory => {
@@ -498,7 +508,7 @@ fn build(kind: Kind) -> Result<Built, String> {
             Ok(Built { subject: Arc::new(AsyncSubject { cache: Arc::new(c), reports_bytes: true }), _dir: None, sync_only: false, _rt: None })
         }
         Kind::Dynamic => {
-            let dir = tempfile::tempdir().map_err(|e| e.to_string())?;
+            let dir = scratch_dir()?;
             let c = cascette_client_storage::container::DynamicContainer::builder(dir.path().join("data"))
                 .build()
                 .map_err(|e| e.to_string())?;
@@ -526,7 +536,7 @@ fn build(kind: Kind) -> Result<Built, String> {
             Ok(Built { subject: Arc::new(AsyncSubject { cache: Arc::new(c), reports_bytes: false }), _dir: None, sync_only: false, _rt: Some(rt) })
         }
         Kind::DiskFlat | Kind::DiskSubdirs => {
-            let dir = tempfile::tempdir().map_err(|e| e.to_string())?;
+            let dir = scratch_dir()?;
             let cfg = DiskCacheConfig::new(dir.path())
                 .with_max_files(100_000)
                 .with_subdirectories(kind == Kind::DiskSubdirs, if kind == Kind::DiskSubdirs { 2 } else { 0 });
@@ -534,7 +544,7 @@ fn build(kind: Kind) -> Result<Built, String> {
             Ok(Built { subject: Arc::new(AsyncSubject { cache: Arc::new(c), reports_bytes: true }), _dir: Some(dir), sync_only: false, _rt: None })
         }
         Kind::ProtocolMemory | Kind::ProtocolDisk => {
-            let dir = if kind == Kind::ProtocolDisk { Some(tempfile::tempdir().map_err(|e| e.to_string())?) } else { None };
+            let dir = if kind == Kind::ProtocolDisk { Some(scratch_dir()?) } else { None };
             let cfg = cascette_protocol::config::CacheConfig {
                 cache_dir: dir.as_ref().map(|d| d.path().to_path_buf()),
                 memory_max_items: 10_000,
@@ -903,6 +913,151 @@ fn judge(w: &Workload, ex: &Execution) -> (Vec<(String, String)>, bool) {
     (out, inconclusive)
 }
 
+/// Systematic part: for tiny workloads (two or three tasks, one operation each, hot key, every
+/// pre-population) ALL interleavings at hook granularity are enumerated by depth-first search over
+/// the baton's decisions (re-execution with a decision prefix; beyond the prefix the lowest runnable
+/// task is chosen; every alternative at every later decision becomes a new prefix).
+fn systematic(ctx: &Ctx, workloads: Vec<Workload>, label: &'static str, max_execs_per_workload: u64) {
+    let queue = Mutex::new(workloads);
+    let total_paths = AtomicU64::new(0);
+    let complete = AtomicU64::new(0);
+    let truncated = AtomicU64::new(0);
+    std::thread::scope(|s| {
+        for _ in 0..16 {
+            let queue = &queue;
+            let total_paths = &total_paths;
+            let complete = &complete;
+            let truncated = &truncated;
+            s.spawn(move || loop {
+                let Some(w) = queue.lock().unwrap_or_else(std::sync::PoisonError::into_inner).pop() else { break };
+                let mut stack: Vec<Vec<u8>> = vec![Vec::new()];
+                let mut execs = 0u64;
+                let mut cut = false;
+                while let Some(prefix) = stack.pop() {
+                    if execs >= max_execs_per_workload {
+                        cut = true;
+                        break;
+                    }
+                    execs += 1;
+                    let mode = Mode::Baton { rng: Rng::new(0), script: Some(prefix.clone()), switch_pct: 0 };
+                    let ex = match execute_guarded(&w, mode) {
+                        Ok(e) => e,
+                        Err(e) => {
+                            if e.contains("panicked") {
+                                ctx.violation(&format!("C11|{}|panic-in-operation", w.kind.family()), &e, json!({"workload": w.to_json(), "decisions": prefix}));
+                            }
+                            continue;
+                        }
+                    };
+                    let Some(o) = ex.outcome.as_ref() else { continue };
+                    if o.free_running_fallback {
+                        // a task did not reach a hook for a long time (machine load): this path is not
+                        // replayable, so the enumeration of this workload is not complete
+                        ctx.obs("systematic.free_running_fallback", 1);
+                        cut = true;
+                        continue;
+                    }
+                    let trace_hash = o.trace.iter().fold(w.hash(), |h, (t, s)| mix64(h, mix64(u64::from(*t), fnv64(s.as_bytes()))));
+                    let switches = o.trace.windows(2).filter(|p| p[0].0 != p[1].0).count();
+                    if switches >= 1 {
+                        ctx.eval_nontrivial(mix64(trace_hash, fnv64(&o.decisions)));
+                    } else {
+                        ctx.eval();
+                    }
+                    let (viol, _) = judge(&w, &ex);
+                    for (sig, summary) in viol {
+                        ctx.violation(&sig, &summary, json!({
+                            "mode": "baton",
+                            "part": "systematic",
+                            "workload": w.to_json(),
+                            "decisions": o.decisions,
+                            "switch_pct": 0,
+                            "trace": o.trace.iter().map(|(t, s)| format!("T{t}:{s}")).collect::<Vec<_>>(),
+                            "history": history_json(&ex.history),
+                            "final_gets": ex.final_gets,
+                        }));
+                    }
+                    // expand: alternatives at every decision beyond the prefix
+                    for i in (prefix.len()..o.decisions.len()).rev() {
+                        for &c in &o.choices[i] {
+                            if c > o.decisions[i] {
+                                let mut p = o.decisions[..i].to_vec();
+                                p.push(c);
+                                stack.push(p);
+                            }
+                        }
+                    }
+                }
+                total_paths.fetch_add(execs, Ordering::Relaxed);
+                if cut {
+                    truncated.fetch_add(1, Ordering::Relaxed);
+                } else {
+                    complete.fetch_add(1, Ordering::Relaxed);
+                }
+                ctx.obs(&format!("systematic.{label}.workloads.{}", w.kind.family()), 1);
+            });
+        }
+    });
+    ctx.obs(&format!("systematic.{label}.interleavings_executed"), total_paths.load(Ordering::Relaxed));
+    ctx.obs(&format!("systematic.{label}.workloads_enumerated_completely"), complete.load(Ordering::Relaxed));
+    ctx.obs(&format!("systematic.{label}.workloads_cut_at_budget"), truncated.load(Ordering::Relaxed));
+}
+
+fn systematic_workloads(kinds: &[Kind], ntasks: usize, alphabet: &[u8]) -> Vec<Workload> {
+    // op codes: 0 get, 1 contains, 2 put, 3 put_ttl0, 4 remove, 5 clear — all on the hot key
+    let mk = |code: u8, id: u32| match code {
+        0 => OpSpec::Get(0),
+        1 => OpSpec::Contains(0),
+        2 => OpSpec::Put(0, id),
+        3 => OpSpec::PutTtl0(0, id),
+        4 => OpSpec::Remove(0),
+        _ => OpSpec::Clear,
+    };
+    let mut out = Vec::new();
+    let n = alphabet.len();
+    let combos = n.pow(ntasks as u32);
+    for &kind in kinds {
+        for prepop in 0..3u8 {
+            for combo in 0..combos {
+                let mut codes = Vec::new();
+                let mut c = combo;
+                for _ in 0..ntasks {
+                    codes.push(alphabet[c % n]);
+                    c /= n;
+                }
+                // tasks are interchangeable: keep one representative per multiset
+                if codes.windows(2).any(|p| p[0] > p[1]) {
+                    continue;
+                }
+                let prepop_ops = match prepop {
+                    0 => vec![],
+                    1 => vec![OpSpec::Put(0, 1)],
+                    _ => vec![OpSpec::PutTtl0(0, 1)],
+                };
+                let mut tasks: Vec<Vec<OpSpec>> = codes.iter().enumerate().map(|(t, &code)| vec![mk(code, 10 + t as u32)]).collect();
+                if kind == Kind::Dynamic {
+                    for ops in &mut tasks {
+                        for op in ops.iter_mut() {
+                            *op = match *op {
+                                OpSpec::Put(k, _) | OpSpec::PutTtl0(k, _) => OpSpec::Put(k, u32::from(k) + 1),
+                                OpSpec::Clear => OpSpec::Contains(0),
+                                o => o,
+                            };
+                        }
+                    }
+                }
+                let prepop_ops = if kind == Kind::Dynamic {
+                    prepop_ops.into_iter().map(|o| match o { OpSpec::Put(k, _) | OpSpec::PutTtl0(k, _) => OpSpec::Put(k, u32::from(k) + 1), o => o }).collect()
+                } else {
+                    prepop_ops
+                };
+                out.push(Workload { kind, prepop: prepop_ops, tasks });
+            }
+        }
+    }
+    out
+}
+
 fn main() {
     let ctx = Ctx::init("C11", "exploration");
     ctx.set_rule("executions of 2-3 concurrent tasks x 1-3 (quick) / 1-6 (thorough) operations from {get, contains, put, put_with_ttl(0), remove, clear} on a hot key, a warm key and a disjoint key over MemoryCache, DiskCache (flat/subdirs) and ProtocolCache (memory/disk), every written value unique; baton mode interleaves at the repository's sched_point hooks under a seeded controller, stress mode runs free with injected spins; non-trivial = at least two tasks were interleaved at a hook (baton) or overlapped in logical time (stress) on the same key; distinct by hash of (workload, interleaving trace)");
@@ -915,6 +1070,19 @@ fn main() {
         ctx.finish();
     }
 
+    // ---- systematic part: every interleaving of 2 tasks x 1 operation (all kinds of the alphabet, all
+    // pre-populations) on the hot key; thorough adds 3 tasks x 1 operation and 2 x 2 for the memory cache
+    {
+        let all: [u8; 6] = [0, 1, 2, 3, 4, 5];
+        let two = systematic_workloads(&[Kind::Memory, Kind::MemoryEvicting(0), Kind::DiskFlat, Kind::Dynamic], 2, &all);
+        ctx.obs("systematic.two_tasks.workloads", two.len() as u64);
+        systematic(&ctx, two, "two_tasks", 20_000);
+        if !ctx.quick() {
+            let three = systematic_workloads(&[Kind::Memory, Kind::DiskFlat], 3, &all);
+            ctx.obs("systematic.three_tasks.workloads", three.len() as u64);
+            systematic(&ctx, three, "three_tasks", 60_000);
+        }
+    }
     let max_ops = ctx.pick(3usize, 6usize);
     let baton_execs: u64 = ctx.pick(24_000, 400_000);
     let stress_execs: u64 = ctx.pick(9_000, 100_000);
